@@ -75,6 +75,7 @@ func (s *solver) start() error {
 	}
 	s.in = in
 	s.out = bufio.NewReaderSize(out, 1<<16)
+	s.buf.Reset() // commands queued for the previous process (a trailing pop) are not for this one
 	s.resetState()
 	s.preamble()
 	return nil
